@@ -86,6 +86,17 @@ CHECKS = {
    note="Known finding C12-F1 (atomic + little ordering) excluded by region; bus-write-wins priority in a same-cycle race is "
         "an interpretation of the statement (stated in the evidence).",
    tech="deterministic simulation, seeded access/device-update interleaving incl. same-cycle races, per-cycle refinement against a register-file model"),
+ "C13": dict(cat="exploration", ref="DESIGN.md 5.C13",
+   text="Seeded request histories (the ORDER of requests from several clients is the schedule; there is no clock and no fault "
+        "here) against the real SoCBusHandler (fixed/automatic/IO/linker/cached/uncached regions, 32/64-bit), SoCCSRHandler / "
+        "SoCIRQHandler (fixed, automatic, reused names, boundary numbers) and ConstraintManager (request/lookup/extension); "
+        "after every accepted call: decoded windows pairwise disjoint, automatic regions aligned / inside the address space / "
+        "inside an IO region when uncached, locations unique and in range and never moved, platform resources matched at most "
+        "once; at the end every region's real decoder is evaluated with the real simulator Evaluator at window boundaries +-1 and "
+        "seeded addresses (exact window, no address selecting two slaves). A rejected request ends the history.",
+   note="Caveat (DESIGN.md 5.C13): no time axis and no fault kinds; decoders sampled at boundaries; the simulated interconnect "
+        "part is covered by C14's bus accesses to the finalized SoC.",
+   tech="seeded search over request-order histories of shared allocators (deterministic, no faults), invariant check after every call"),
  "C15": dict(cat="fault_enumeration", ref="DESIGN.md 5.C15",
    text="Real EventManager (1-12 sources: pulse, process rising/falling, level) behind a real CSRBank (8/32-bit) and SharedIRQ "
         "over two managers; literal trigger waveforms and software accesses; a per-source model (set wins over clear, level "
@@ -102,9 +113,10 @@ CHECKS = {
         "the downstream protocol with its own legal timing (several requests accepted before answering, delayed ready, error "
         "range); reference byte memory on the master side, response codes incl. error propagation, store content, and "
         "valid/payload-stability monitors on every channel the bridge drives. Sampling, not proof.",
-   note="AXI4-full bridges (AXI2AXILite, AXILite2AXI, AXI2Wishbone, Wishbone2AXI) and AHB2Wishbone: see props/c09 family list "
-        "(claimed only as far as families exist). Known findings C09-F1 (AXILite2Wishbone ignores err) and C09-F2 "
-        "(AXILiteUpConverter with several outstanding requests).",
+   note="AXI4-full bridges (AXI2AXILite, AXILite2AXI, AXI2Wishbone, Wishbone2AXI) and AHB2Wishbone are families of the same check "
+        "(props/c09b.py, AXI4 burst master / reference memory slave, AHB master agent). Known findings C09-F1 (AXILite2Wishbone "
+        "ignores err), C09-F2 (AXILiteUpConverter with several outstanding requests), C09-F4 (AXI2AXILite needs a one-request-"
+        "at-a-time AXI-Lite slave); SoCBusHandler.add_adapter chains are exercised through C14's SoC builds.",
    tech="deterministic simulation, seeded cross-protocol channel-timing search, reference byte memory + protocol monitors"),
  "C16": dict(cat="exploration", ref="DESIGN.md 5.C16",
    text="Seeded search over header definitions, data widths, packet lists, valid/ready schedules and selector changes for "
